@@ -322,7 +322,7 @@ func (self *linkedPairs) Get(key string) (*Pair, int) {
 		i, ok := self.index[caching.StrHash(key)]
 		if ok {
 			n := self.At(i)
-			if n.Key == key {
+			if n.Key == key && (key != "" || n.Value.Exists()) {
 				return n, i
 			}
 			// hash conflicts
@@ -333,7 +333,8 @@ func (self *linkedPairs) Get(key string) (*Pair, int) {
 	}
 linear_search:
 	for i := 0; i < self.size; i++ {
-		if n := self.At(i); n.Key == key {
+		// an unset slot is not a member whose key is ""
+		if n := self.At(i); n.Key == key && (key != "" || n.Value.Exists()) {
 			return n, i
 		}
 	}
